@@ -38,20 +38,26 @@ TkInit ==
 
 FreeSlots == {f \in Slot : ~slot[f].busy}
 
-\* an operation starts: the request is what only this task and this operation would send
+\* an operation starts in slot f with datagram index ix: the request is what only this task and this operation
+\* would send
+BeginAt(t, f, ix) ==
+    /\ pc[t] = "idle" /\ Len(done[t]) < Ops /\ ~slot[f].busy
+    /\ slot' = [slot EXCEPT ![f] = [busy |-> TRUE, owner |-> t, idx |-> ix, resp |-> <<>>]]
+    /\ wire' = wire \cup {[idx |-> ix, tag |-> <<t, Len(done[t]) + 1>>]}
+    /\ nextIdx' = (ix + 1) % IdxMod
+    /\ pc' = [pc EXCEPT ![t] = "wait"]
+    /\ UNCHANGED <<done, full>>
+
+\* ... or fails at once because every slot is taken
+NoSlotFor(t) ==
+    /\ pc[t] = "idle" /\ Len(done[t]) < Ops /\ FreeSlots = {}
+    /\ done' = [done EXCEPT ![t] = Append(@, NoSlot)]
+    /\ full' = full \cup {Cardinality({f \in Slot : slot[f].busy})}
+    /\ UNCHANGED <<slot, nextIdx, wire, pc>>
+
 Begin(t) ==
-    /\ pc[t] = "idle" /\ Len(done[t]) < Ops
-    /\ IF FreeSlots = {}
-       THEN /\ done' = [done EXCEPT ![t] = Append(@, NoSlot)]
-            /\ full' = full \cup {Cardinality({f \in Slot : slot[f].busy})}
-            /\ UNCHANGED <<slot, nextIdx, wire, pc>>
-       ELSE LET f == CHOOSE f \in FreeSlots : \A g \in FreeSlots : f <= g
-                tag == <<t, Len(done[t]) + 1>>
-            IN /\ slot' = [slot EXCEPT ![f] = [busy |-> TRUE, owner |-> t, idx |-> nextIdx, resp |-> <<>>]]
-               /\ wire' = wire \cup {[idx |-> nextIdx, tag |-> tag]}
-               /\ nextIdx' = (nextIdx + 1) % IdxMod
-               /\ pc' = [pc EXCEPT ![t] = "wait"]
-               /\ UNCHANGED <<done, full>>
+    IF FreeSlots = {} THEN NoSlotFor(t)
+    ELSE BeginAt(t, CHOOSE f \in FreeSlots : \A g \in FreeSlots : f <= g, nextIdx)
 
 \* the network hands a response to the receive side, which routes it by its index
 Deliver(fr) ==
